@@ -422,6 +422,8 @@ def comp_stages(tier, seed, battery, n=None, ln=None):
         # ... and filled from empty (insert positions in 16-slot nodes whose upper lanes hold bytes >= 0x80)
         st.append(Stage("sim", s, "tuplefan", "q", battery, num=(1 if q else 4), depth=(220 if q else 900), ramp=True, invs=["SizeOK", "AllOK"],
                         every=False, batevery=4))
+    # many short fills of the 256-way root: each passes through the 16-slot class with bytes on both sides of 0x80
+    st.append(Stage("random", "compound/i8+u16", "tuplefan", "q", battery, n=(12 if q else 40), len=30, batevery=1, dumpevery=6))
     st.append(Stage("random", "compound/u64+u64+u8", "tuplelong", "q", battery, n=(5 if q else 20), len=(40 if q else 90), batevery=1, dumpevery=3))
     schemas = rand_schemas(seed, 4 if q else 20)
     for i, s in enumerate(schemas):
